@@ -145,6 +145,7 @@ impl File {
 pub fn min(a: usize, b: usize) -> (r: usize) ensures r == if a <= b { a } else { b } { if a <= b { a } else { b } }
 
 //@include time.rs
+//@include stdspecs.rs
 // ================================================================ posix.rs seam: contracts discharged separately against the libc model
 pub mod posix {
     use vstd::prelude::*;
